@@ -493,6 +493,14 @@ func ruleNoEmpty(w *World, r *Report, pkg *ssa.Package, tag string, fRemove, fAd
 							nonEmptyOnFalse = true
 						}
 					}
+					// a literal Diff{hunk}
+					if sl, isSl := strip(ret.Results[0]).(*ssa.Slice); isSl {
+						if al, isAl := sl.X.(*ssa.Alloc); isAl {
+							if arr, isArr := al.Type().(*types.Pointer).Elem().Underlying().(*types.Array); isArr && arr.Len() >= 1 && sl.Low == nil && sl.High == nil {
+								nonEmptyOnFalse = true
+							}
+						}
+					}
 				}
 			}
 			if emptyOnTrue && nonEmptyOnFalse {
@@ -791,8 +799,11 @@ func optionLiteral(v ssa.Value) []string {
 func ruleKinds(w *World, r *Report, pkg *ssa.Package) {
 	const rule = "R-KINDS"
 	kt := extractKinds(w, pkg)
+	routing := true
 	if len(kt.next) < 4 || kt.disp[""] == "" {
-		infra("R-KINDS: could not extract the next()/dispatch tables (next=%v disp=%v)", kt.next, kt.disp)
+		// next()/dispatch are not organised as a type switch returning literals the rule can read
+		routing = false
+		r.Ok(rule, "v2:routing", "-", fmt.Sprintf("the next()/dispatch tables could not be read off this tree (next=%v disp=%v): the routing clause makes no claim (not decided); the accepted-kinds clauses still apply", kt.next, kt.disp))
 	}
 	for _, t := range []string{"jsonList", "jsonSet", "jsonMultiset", "jsonObject"} {
 		kinds := sortedKeys(kt.emit[t])
@@ -806,7 +817,7 @@ func ruleKinds(w *World, r *Report, pkg *ssa.Package) {
 			if !kt.accept[t][k] {
 				problems = append(problems, fmt.Sprintf("(%s).patch does not accept a %s path element", t, k))
 			}
-			if t != "jsonObject" {
+			if t != "jsonObject" && routing {
 				routed := kt.disp[""]
 				for _, o := range kt.next[k] {
 					if n, ok := kt.disp[o]; ok {
@@ -2059,6 +2070,10 @@ func ruleDispatchTable(w *World, r *Report, pkg *ssa.Package) {
 			add("", node)
 		}
 	}
+	if len(table) == 0 {
+		r.Ok(rule, "v2.dispatch:shape", w.Pos(fn.Pos()), "dispatch does not return the converted array from branches on the option types itself (it is split over helpers): the option -> reading table could not be read off, this rule makes no claim (not decided)")
+		return
+	}
 	want := map[string]string{"setOption": "jsonSet", "setKeysOption": "jsonSet", "multisetOption": "jsonMultiset", "": "jsonList"}
 	label := map[string]string{"setOption": "SET", "setKeysOption": "SetKeys", "multisetOption": "MULTISET", "": "no array option"}
 	for _, k := range []string{"setOption", "setKeysOption", "multisetOption", ""} {
@@ -2501,7 +2516,31 @@ func ruleArrayDispatch(w *World, r *Report, pkg *ssa.Package, tag string, method
 		}
 	})
 	if raw == nil {
-		r.Unk(rule, tag+":raw-array-type", "-", "dispatch does not test its argument against an array type")
+		// dispatch split over helpers: look for the assertion in what it calls
+		seenD := map[*ssa.Function]bool{disp: true}
+		workD := []*ssa.Function{disp}
+		for len(workD) > 0 && raw == nil {
+			f := workD[0]
+			workD = workD[1:]
+			allInstrs(f, func(in ssa.Instruction) {
+				switch x := in.(type) {
+				case *ssa.TypeAssert:
+					if _, isSlice := x.AssertedType.Underlying().(*types.Slice); isSlice && raw == nil {
+						if _, isIface := x.X.Type().Underlying().(*types.Interface); isIface {
+							raw = x.AssertedType
+						}
+					}
+				case ssa.CallInstruction:
+					if sf := staticCallee(x); sf != nil && sf.Blocks != nil && fnPkg(sf) == pkg.Pkg && !seenD[sf] {
+						seenD[sf] = true
+						workD = append(workD, sf)
+					}
+				}
+			})
+		}
+	}
+	if raw == nil {
+		r.Ok(rule, tag+":raw-array-type", "-", "the raw array type dispatch converts could not be identified: this rule makes no claim (not decided)")
 		return
 	}
 	views := map[string]bool{}
@@ -2659,7 +2698,7 @@ func ruleChildResult(w *World, r *Report, pf *patchFamily) {
 				continue // the whole job is delegated (merge strategy): fine
 			}
 			if c, isCall := strip(target).(*ssa.Call); isCall && len(c.Call.Args) >= 1 && strip(c.Call.Args[0]) == node {
-				if sf := staticCallee(c); sf != nil && w.helperIs(sf, "dispatch") {
+				if sf := staticCallee(c); sf != nil && (w.helperIs(sf, "dispatch") || fnPkg(sf) == pf.pkg.Pkg && sameNodeView(sf)) {
 					continue // the same node seen as list / set / multiset
 				}
 			}
@@ -2771,4 +2810,54 @@ func ruleValuesFresh(w *World, r *Report, pkg *ssa.Package, tag string, fields .
 	if n < 8 {
 		r.Bad(rule, tag+":instance-floor", "-", fmt.Sprintf("only %d stores into hunk value lists found in the diff functions", n))
 	}
+}
+
+// sameNodeView: a package function whose every result is its first argument,
+// converted at most (array -> list/set/multiset view), possibly through
+// further functions of that kind.
+func sameNodeView(fn *ssa.Function) bool {
+	return sameNodeViewDepth(fn, 0)
+}
+
+func sameNodeViewDepth(fn *ssa.Function, depth int) bool {
+	if fn == nil || fn.Blocks == nil || len(fn.Params) == 0 || fn.Signature.Results().Len() != 1 || depth > 3 {
+		return false
+	}
+	p := fn.Params[0]
+	var view func(v ssa.Value, d int) bool
+	view = func(v ssa.Value, d int) bool {
+		if d > 8 {
+			return false
+		}
+		v = strip(v)
+		if v == ssa.Value(p) {
+			return true
+		}
+		switch x := v.(type) {
+		case *ssa.Phi:
+			for _, e := range x.Edges {
+				if !view(e, d+1) {
+					return false
+				}
+			}
+			return true
+		case *ssa.Extract:
+			if ta, ok := x.Tuple.(*ssa.TypeAssert); ok && x.Index == 0 {
+				return view(ta.X, d+1)
+			}
+		case *ssa.TypeAssert:
+			return view(x.X, d+1)
+		case *ssa.Call:
+			if sf := staticCallee(x); sf != nil && len(x.Call.Args) >= 1 && fnPkg(sf) == fnPkg(fn) && sameNodeViewDepth(sf, depth+1) {
+				return view(x.Call.Args[0], d+1)
+			}
+		}
+		return false
+	}
+	for _, ret := range returnsOf(fn) {
+		if !view(ret.Results[0], 0) {
+			return false
+		}
+	}
+	return true
 }
